@@ -391,7 +391,8 @@ pub fn run(p: &Params) -> Run {
     for _ in 0..n_long {
         let head = rng.chance(1, 2);
         let cap = *rng.pick(&[8usize, 64, 64, 8192, 8192]);
-        let line_len = match cap { 8 => 20 + rng.below(30), 64 => 60 + rng.below(200), _ => 8000 + rng.below(9000) };
+        // longer than the reader's buffer; for the large capacity also longer than 64 KiB / 128 KiB (common fixed limits)
+        let line_len = match cap { 8 => 20 + rng.below(30), 64 => 60 + rng.below(200), _ => if rng.chance(1, 4) { 65_000 + rng.below(150_000) } else { 8000 + rng.below(9000) } };
         let initial = if rng.chance(1, 2) { Vec::new() } else { gen_content(&mut rng, 4) };
         let appended = gen_long_content(&mut rng, line_len);
         // few cuts for long contents, near the buffer boundary as well
